@@ -41,6 +41,12 @@ def plan(tier, seed):
     for i in range(3):
         shards.append({'name': 'tight_%d' % i, 'kind': 'tight', 'N': 30 if tier == 'quick' else 40,
                        'combos': combos[i::3]})
+    w4 = gen.exact_score_plan(random.Random(seed * 1000 + 46),
+                              ('JACCARD', 'COSINE', 'DICE', 'OVERLAP_COEFFICIENT'),
+                              40 if tier == 'quick' else 1200)
+    nw4 = 2 if tier == 'quick' else 6
+    for i in range(nw4):
+        shards.append({'name': 'w4_%d' % i, 'kind': 'w4', 'combos': w4[i::nw4], 'seed': seed * 1000 + 240 + i})
     shards.append({'name': 'person', 'kind': 'data', 'data': 'person', 'n': 30 if tier == 'quick' else 200,
                    'seed': seed * 1000 + 232})
     shards.append({'name': 'books_a', 'kind': 'data', 'data': 'books', 'rows': 400 if tier == 'quick' else 1200,
@@ -233,10 +239,27 @@ def tight_case(case, rec, ssj):
     return {'nontrivial': nt, 'call': call, 't': (t, t2)}
 
 
+def exact_case(case, rec, ssj):
+    """The laws with the stricter threshold being the exact double-precision score of pairs of sets
+    with up to 64 tokens (rewrite-sensitive points first): the boundary pairs are in the laxer result
+    with exactly that score, so refinement and the operator partition decide them."""
+    m, t = case['measure'], case['threshold']
+    L, R, groups = gen.exact_score_tables(m, t, random.Random(case['seed']))
+    call = {'api': T.MEASURE_JOIN[m], 'ltable': L, 'rtable': R, 'l_key': 'id', 'r_key': 'id',
+            'l_attr': 's', 'r_attr': 's', 'tok': {'kind': 'ws', 'return_set': True},
+            'allow_missing': False, 'n_jobs': 1}
+    nt = check_laws(ssj, rec, dict(case, t_attained=t), call, max(1e-3, round(t * 0.7, 3)), t)
+    rec.count('nontrivial_pairs', nt)
+    rec.count('w4_exact_score_thresholds')
+    return {'nontrivial': nt, 'call': call, 't': (t * 0.7, t)}
+
+
 def run_case(case, rec, ssj=None, data=None):
     ssj = ssj or env.load()
     if case['gen'] == 'tight':
         return tight_case(case, rec, ssj)
+    if case['gen'] == 'w4':
+        return exact_case(case, rec, ssj)
     rng = random.Random(case['seed'])
     if case['gen'] == 'law':
         call, t_lax, t_strict = make_case_call(rng)
@@ -337,6 +360,14 @@ def run_shard(shard, rec):
             rec.case(sig=('tight', m, t, shard['N']), nontrivial=st['nontrivial'] > 0, n=7)
             rec.add('api', st['call']['api'])
         rec.sample({'workload': 'tight tables', 'N': shard['N'], 'combos': shard['combos'][:3]}, limit=1)
+        shard = dict(shard, n=0)
+    if shard['kind'] == 'w4':
+        for i, (m, t, _op) in enumerate(shard['combos']):
+            case = {'gen': 'w4', 'measure': m, 'threshold': t, 'seed': shard['seed'] * 100000 + i}
+            st = exact_case(case, rec, ssj)
+            rec.case(sig=('w4', m, t), nontrivial=st['nontrivial'] > 0, n=7)
+            rec.add('api', st['call']['api'])
+        rec.sample({'workload': 'exact-score thresholds (sets up to 64 tokens)', 'last': case}, limit=1)
         shard = dict(shard, n=0)
     for i in range(shard['n']):
         if shard['kind'] == 'law':
